@@ -144,12 +144,14 @@ Proof.
       unfold rec_encodable; cbn. unfold u16, C_TYPE_A. repeat split; try apply Hsrv; try apply Hh; try (apply H4; exact Ha); lia.
     + apply Forall_forall. intros r Hr. apply in_map_iff in Hr as (a & <- & Ha). rewrite Forall_forall in H6.
       unfold rec_encodable; cbn. unfold u16, C_TYPE_AAAA. repeat split; try apply Hsrv; try apply Hh; try (apply H6; exact Ha); lia.
-  - destruct (nonempty (missing_types (map p_type_ (dns_addresses s)))) eqn:Ene; [|constructor].
+  - set (miss := missing_types (map p_type_ (dns_addresses s))).
+    assert (Hrange : Forall (fun t => 0 <= t <= 255) miss) by apply missing_types_range.
+    clearbody miss. destruct (nonempty miss) eqn:Ene; [|constructor].
     constructor; [|constructor].
-    unfold rec_encodable, dns_nsec; cbn. unfold u16, C_TYPE_NSEC.
+    unfold rec_encodable, dns_nsec; cbn [p_name p_type_ p_ttl p_kind p_next_name p_rdtypes set_nsec blank]. unfold u16, C_TYPE_NSEC.
     split; [exact Hnm|]. split; [lia|]. split; [exact Hh|]. split; [exact Hnm|]. split.
-    + apply sorted_ne. destruct (missing_types (map p_type_ (dns_addresses s))); [discriminate Ene|discriminate].
-    + apply sorted_Forall. apply missing_types_range.
+    + apply sorted_ne. destruct miss; [discriminate Ene|discriminate].
+    + apply sorted_Forall. exact Hrange.
 Qed.
 
 Corollary RegEncodable_fields g : (forall s, In s (registered g) -> svc_fields_ok s) -> RegEncodable g.
@@ -162,6 +164,7 @@ Definition svc_fields_okb (s : svc) : bool :=
   (0 <=? s_other_ttl s) && (s_other_ttl s <=? 4294967295) && (len (s_text s) <=? 65535) &&
   forallb (fun a => len a <=? 65535) (s_v4 s ++ s_v6 s).
 
+Opaque encodable_nameb.
 Lemma svc_fields_okb_ok s : svc_fields_okb s = true -> svc_fields_ok s.
 Proof.
   unfold svc_fields_okb. intro H. repeat (apply andb_true_iff in H; destruct H as [H ?]).
@@ -169,6 +172,8 @@ Proof.
   apply Forall_forall. intros a Ha.
   match goal with H' : forallb _ _ = true |- _ => rewrite forallb_forall in H'; specialize (H' a Ha) end. lia.
 Qed.
+
+Transparent encodable_nameb.
 
 Print Assumptions encodable_lower.
 Print Assumptions svc_fields_encodable.
